@@ -19,20 +19,26 @@ THEOREMS = [
     "PorepyVerif.C31.point_in_polygon_separated_outside",
     "PorepyVerif.C31.point_in_convex_polygon_outside",
     "PorepyVerif.C31.point_in_convex_polygon_spec",
+    "PorepyVerif.C31.point_in_polygon_eq_signed_crossings",
+    "PorepyVerif.C31.point_in_polygon_crossing_odd",
+    "PorepyVerif.C31.point_in_polygon_crossing_parity_spec",
     "PorepyVerif.C31.collinear_spec",
     "PorepyVerif.C31.planar_exact",
     "PorepyVerif.C31.planar_spec",
     "PorepyVerif.C31.half_space_spec",
     "PorepyVerif.C31.sort_point_pairs_chain",
     "PorepyVerif.C31.sort_point_pairs_cycle_complete",
+    "PorepyVerif.C31.sort_point_pairs_chain_complete",
+    "PorepyVerif.C31.sort_points_on_line_perm",
+    "PorepyVerif.C31.sort_points_on_line_monotone",
 ]
 LEAN_MODULES = ["PorepyVerif.C31.Props"]
 AUDIT = "PorepyVerif/C31/Audit.lean"
 DRIVER = "PorepyVerif/C31/Driver.lean"
 N = {"quick": 700, "thorough": 20000}
 RULE = ("one call per case of is_ccw_polyline / is_ccw_polygon / point_in_polygon / point_in_cell / points_are_collinear / points_are_planar / "
-        "point_inside_half_space_intersection / polygon_hanging_nodes / sort_point_pairs / sort_multiple_point_pairs (compared with the Lean model "
-        "AND checked by the exact oracle) or of point_in_polyhedron / PointInPolyhedron.winding_number / sort_point_plane / sort_points_on_line / "
+        "point_inside_half_space_intersection / polygon_hanging_nodes / sort_point_pairs / sort_multiple_point_pairs / sort_points_on_line (compared with the Lean model "
+        "AND checked by the exact oracle) or of point_in_polyhedron / PointInPolyhedron.winding_number / sort_point_plane / "
         "sort_triangle_edges / half_space_interior_point (exact oracle only). Coordinates are small integers or dyadics (exact in binary64). "
         "Polygons: convex hulls, star-shaped, rectilinear non-convex templates (L, U, comb, stairs, C, plus) and a dented quad, both orientations, "
         "random start vertex; query points: vertices, points on edges, points on the EXTENSION of edges, half-integer lattice points. "
@@ -46,20 +52,26 @@ RULE = ("one call per case of is_ccw_polyline / is_ccw_polygon / point_in_polygo
         "distinct = distinct cases")
 TRUSTED = [
     "oracle-only (no Lean model): point_in_polyhedron and PointInPolyhedron (solid angles via arctan2, scipy Delaunay, uniquify_point_set, "
-    "sort_triangle_edges), half_space_interior_point (scipy linprog), sort_point_plane (rotation + arctan2), sort_points_on_line (rotation + argsort), "
-    "sort_triangle_edges; their oracle is exact rational geometry (ray casting with exact intersection tests, exact angular order, exact line parameter)",
-    "modelled, not verified (correspondence only): point_in_polygon for points inside a non-convex polygon that are neither in its kernel nor separated "
-    "from it by a line (the theorems cover kernel points, separated points and hence all of the convex case), point_in_cell, polygon_hanging_nodes, "
-    "sort_multiple_point_pairs (numba), compute_normal's argmax selection, the non-circular start selection of sort_point_pairs (completeness is proved for cycles only)",
-    "modelled, not verified: numpy masking/broadcasting glue, np.roll/np.sign/np.bincount/np.isin, norms compared as squares (sqrt monotone), np.isclose/np.allclose with rtol=0",
+    "sort_triangle_edges), half_space_interior_point (scipy linprog), sort_point_plane (rotation by an irrational matrix + arctan2), "
+    "sort_triangle_edges; their oracle is exact rational geometry (ray casting with exact intersection tests, exact angular order)",
+    "modelled, not verified (correspondence only): point_in_polygon where the vertical line through the point meets >= 4 edges and the crossing number is even "
+    "(needs: a simple polygon has signed crossing number in {-1,0,1}) and in non-generic positions (a vertex exactly above/below the point) -- the theorems cover "
+    "kernel points, separated points, the convex case, every polygon in generic position with <= 2 edges met, and 'odd crossing number => True' in general; "
+    "point_in_cell, polygon_hanging_nodes, sort_multiple_point_pairs (numba), compute_normal's argmax selection",
+    "modelled, not verified: sort_points_on_line's rotation (project_line_matrix) is modelled as the dot product with the tangent that the rotation aligns with e_z "
+    "(sign -1 in the degenerate case tangent = -e_z, where the code uses the identity); np.argmax ties between equally distant end points may reverse the order "
+    "(accepted by the comparison only in that exact tie)",
+    "modelled, not verified: numpy masking/broadcasting glue, np.roll/np.sign/np.bincount/np.isin/np.argsort, norms compared as squares (sqrt monotone), np.isclose/np.allclose with rtol=0",
 ]
 EXPLANATION = ("CORE (partial): the predicates are modelled branch for branch over exact rationals and proved equal to the exact geometric answer outside the "
                "tolerance band: is_ccw_polyline (orientation sign; integer inputs: any tol<1), is_ccw_polygon (= sign of shoelace area), point_in_polygon "
-               "(True on the kernel, False when separated by a line, exact for convex polygons off the edge lines), points_are_collinear / points_are_planar "
-               "(integer inputs: True iff exactly collinear / in the plane, under an explicit bound tol^2*scale<1), half-space membership (iff all inequalities), "
-               "sort_point_pairs (every returned result is a valid chain: permutation with flips, consecutive columns share a node, closes when checked; a simple "
-               "cycle is never rejected). Everything involving arctan2 / LP / Delaunay (polyhedron, plane/line sorting) and non-convex point_in_polygon is tied by "
-               "correspondence and an exact rational oracle only. The model follows the property where the code deviates (4 open findings).")
+               "(True on the kernel, False when separated by a line, exact for convex polygons; for EVERY polygon in generic position the coded winding sum is the "
+               "signed crossing number of the upward ray, hence odd crossing number => True, and the exact even-odd rule whenever the vertical line meets <= 2 edges), "
+               "points_are_collinear / points_are_planar (integer inputs: True iff exactly collinear / in the plane, under an explicit bound tol^2*scale<1), "
+               "half-space membership (iff all inequalities), sort_point_pairs (every returned result is a valid chain; simple cycles AND simple open chains in any "
+               "column order / flips are never rejected and come out as the walk from the first column / from an end point), sort_points_on_line (permutation; "
+               "monotone in the line parameter). Everything involving arctan2 / LP / Delaunay (polyhedron, plane sorting) and the Jordan-curve part of non-convex "
+               "point_in_polygon is tied by correspondence and an exact rational oracle only. Five defects found by this check were repaired in /repo (no open finding).")
 ASSUMPTIONS = ["inputs are small integers / dyadics, so the rational model and binary64 agree exactly on every compared (discrete) output",
                "query points of point_in_cell / polyhedra are either exactly on the boundary (documented answer) or at distance >= ~1e-2 from it; "
                "collinear/planar inputs are exactly degenerate or integer-far from degenerate (no input inside a tolerance band except where the band is the subject)"]
@@ -67,9 +79,9 @@ ASSUMPTIONS = ["inputs are small integers / dyadics, so the rational model and b
 KINDS = [
     ("ccw_polyline", 8), ("ccw_polygon", 6), ("pip", 16), ("cell", 6), ("collinear", 9), ("planar", 9),
     ("half_space", 7), ("hanging", 5), ("sort_pairs", 14), ("sort_multi", 4),
-    ("polyhedron", 7), ("winding", 3), ("sort_plane", 4), ("sort_line", 4), ("tri_edges", 4), ("hs_interior", 2),
+    ("polyhedron", 7), ("winding", 3), ("sort_plane", 3), ("sort_plane_xy", 3), ("sort_line", 4), ("tri_edges", 4), ("hs_interior", 2),
 ]
-ORACLE_ONLY = {"polyhedron", "winding", "sort_plane", "sort_line", "tri_edges", "hs_interior"}
+ORACLE_ONLY = {"polyhedron", "winding", "sort_plane", "tri_edges", "hs_interior"}
 
 
 # ----------------------------------------------------------------------------- exact rational geometry (oracle side)
@@ -733,15 +745,45 @@ def _gen_case(rng, tier):
         pts = [[o[c] + a * u[c] + b * v[c] for c in range(3)] for a, b in ab]
         with_normal = rng.random() < 0.5
         return {"kind": kind, "pts": pts, "centre": o, "ab": [list(x) for x in ab], "normal": cross3(u, v) if with_normal else None}
+    if kind == "sort_plane_xy":
+        den = rng.choice([1, 1, 2])
+        o = [F(rng.randint(-6, 6), den), F(rng.randint(-6, 6), den), F(rng.randint(-3, 3))]
+        dirs = {}
+        for _ in range(rng.randint(3, 9)):
+            a, b = rng.randint(-4, 4), rng.randint(-4, 4)
+            if rng.random() < 0.3:  # on the axes: the region boundaries of arctan2
+                a, b = rng.choice([(0, abs(b) + 1), (0, -abs(b) - 1), (abs(a) + 1, 0), (-abs(a) - 1, 0)])
+            if (a, b) == (0, 0):
+                continue
+            g = math.gcd(abs(a), abs(b))
+            dirs[(a // g, b // g)] = (a, b)
+        ab = list(dirs.values())
+        rng.shuffle(ab)
+        if len(ab) < 3 or all(cross2(vsub(x, ab[0]), vsub(y, ab[0])) == 0 for x in ab for y in ab):
+            ab = [(1, 0), (0, 1), (-1, -1)]
+        pts = [[o[0] + F(a, den), o[1] + F(b, den), o[2]] for a, b in ab]
+        normal = rng.choice([None, None, [0, 0, 1], [0, 0, -2]])
+        return {"kind": kind, "pts": _fr2(pts), "centre": [frac(x) for x in o], "ab": [list(x) for x in ab], "normal": normal}
     if kind == "sort_line":
         rp = lambda: [rng.randint(-4, 4) for _ in range(3)]
         o, d = rp(), rp()
+        r = rng.random()
+        if r < 0.25:  # along +z / -z: the rotation of project_line_matrix degenerates to the identity
+            d = [0, 0, rng.choice([-2, -1, 1, 3])]
         if d == [0, 0, 0]:
             d = [0, 0, 1]
         n = rng.choice([1, 2, 3, 4, 5, 6])
         ts = rng.sample(range(-6, 7), n)
         den = rng.choice([1, 1, 2])
-        return {"kind": kind, "pts": _fr2([[o[c] + F(t, den) * d[c] for c in range(3)] for t in ts]), "ts": ts}
+        pts = [[o[c] + F(t, den) * d[c] for c in range(3)] for t in ts]
+        cls = "line"
+        m = rng.random()
+        if m < 0.07 and n >= 2:
+            pts, ts, cls = [list(pts[0]) for _ in range(n)], [ts[0]] * n, "coincident"  # no tangent: AssertionError
+        elif m < 0.14 and n >= 3:
+            pts[rng.randrange(n)] = [F(x) for x in rp()]
+            cls = "one-off"  # (almost surely) not collinear: AssertionError
+        return {"kind": kind, "pts": _fr2(pts), "ts": ts, "tol": frac(F(1e-5)), "cls": cls}
     if kind == "tri_edges":
         v, faces, cls = _gen_mesh(rng)
         tris = [list(t) for t in _mesh_tris(v, faces)]
@@ -854,11 +896,14 @@ def _call(case):
             except ValueError as e:
                 out.append(str(e))
         return out
+    if kind == "sort_plane_xy":
+        nrm = None if case["normal"] is None else np.array(case["normal"], dtype=float)
+        return sort_points.sort_point_plane(_arr(case["pts"]), np.array([float(F(x)) for x in case["centre"]]), nrm)
     if kind == "sort_plane":
         nrm = None if case["normal"] is None else np.array(case["normal"], dtype=float)
         return sort_points.sort_point_plane(np.array(case["pts"], dtype=float).T, np.array(case["centre"], dtype=float), nrm)
     if kind == "sort_line":
-        return sort_points.sort_points_on_line(_arr(case["pts"]))
+        return sort_points.sort_points_on_line(_arr(case["pts"]), tol=float(F(case.get("tol", frac(F(1e-5))))))
     if kind == "tri_edges":
         return sort_points.sort_triangle_edges(np.array(case["tris"], dtype=int).T.copy())
     if kind == "hs_interior":
@@ -882,8 +927,8 @@ def impl_run(case):
         return {"r": bool(r)}
     if kind == "cell":
         return {"r": r}
-    if kind == "hanging":
-        return {"r": [int(x) for x in r]}
+    if kind in ("hanging", "sort_line", "sort_plane_xy"):
+        return {"r": [int(x) for x in np.atleast_1d(r)]}
     if kind == "sort_pairs":
         s, ind = r
         return {"lines": [[int(s[0, j]), int(s[1, j])] for j in range(s.shape[1])], "ind": [int(i) for i in ind]}
@@ -922,7 +967,25 @@ def model_ops(case):
         return [{"op": kind, "lines": case["lines"], "check": case["check"], "circular": case["circular"]}]
     if kind == "sort_multi":
         return [{"op": kind, "chains": case["chains"]}]
+    if kind == "sort_line":
+        return [{"op": kind, "pts": case["pts"], "tol": case.get("tol", frac(F(1e-5)))}]
+    if kind == "sort_plane_xy":
+        return [{"op": kind, "pts": [q[:2] for q in case["pts"]], "centre": case["centre"][:2]}]
     raise AssertionError(kind)
+
+
+def compare(impl, model, case):
+    d = deep_compare(impl, model)
+    if d and case["kind"] == "sort_line" and isinstance(impl, dict) and isinstance(model, dict) and "r" in impl and "r" in model:
+        # two points equally far from the centroid: np.argmax on rounded norms may pick the other one as
+        # tangent, which reverses the order
+        pts = _P(case["pts"])
+        n = len(pts)
+        c = [sum(q[k] for q in pts) / n for k in range(3)]
+        dist = sorted(vdot(vsub(q, c), vsub(q, c)) for q in pts)
+        if n >= 2 and dist[-1] == dist[-2] and impl["r"] == model["r"][::-1]:
+            return None
+    return d
 
 
 def model_decode(outs, case):
@@ -1188,7 +1251,7 @@ def oracle(case):
             if abs(abs(r) - want) > 1e-9:
                 return fail(f"point {[str(x) for x in q]} is '{c}' of the {case['cls']} {case['v']}: winding number {r}", "wrong-winding-number")
         return None
-    if kind == "sort_plane":
+    if kind in ("sort_plane", "sort_plane_xy"):
         if exc:
             return fail(f"raised {exc!r} for {case['pts']} centre {case['centre']}", "raises")
         ab = case["ab"]
@@ -1203,15 +1266,25 @@ def oracle(case):
             return fail(f"points {case['pts']} centre {case['centre']}: order {got} is not the angular order {want} (up to rotation / reversal)", "wrong-order")
         return None
     if kind == "sort_line":
+        pts = _P(case["pts"])
+        coll = all(cross3(vsub(p, pts[0]), vsub(q, pts[0])) == [0, 0, 0] for p in pts for q in pts)
+        coincident = len(pts) >= 2 and all(p == pts[0] for p in pts)
+        if not coll or coincident:
+            # not on a line / no direction: the documented assertion
+            if exc is None:
+                return fail(f"points {case['pts']} ({'coincident' if coincident else 'not collinear'}) were sorted: {list(np.atleast_1d(res))}", "invalid-input-accepted")
+            return None if isinstance(exc, AssertionError) else fail(f"raised {exc!r} for {case['pts']}", "raises")
         if exc:
             return fail(f"raised {exc!r} for {case['pts']}", "raises")
-        ts = case["ts"]
         got = [int(i) for i in np.atleast_1d(res)]
-        if sorted(got) != list(range(len(ts))):
+        if sorted(got) != list(range(len(pts))):
             return fail(f"result {got} is not a permutation", "not-permutation")
-        seq = [ts[i] for i in got]
+        # exact line parameter of every point w.r.t. the direction to the farthest point
+        far = max(pts, key=lambda q: vdot(vsub(q, pts[0]), vsub(q, pts[0])))
+        dd = vsub(far, pts[0])
+        seq = [vdot(vsub(pts[i], pts[0]), dd) for i in got]
         if seq != sorted(seq) and seq != sorted(seq, reverse=True):
-            return fail(f"points {case['pts']} (parameters {ts}): order {got} is not monotone along the line", "not-monotone")
+            return fail(f"points {case['pts']}: order {got} is not monotone along the line", "not-monotone")
         return None
     if kind == "tri_edges":
         if exc:
@@ -1254,6 +1327,8 @@ def nontrivial(case):
     if k in ("polyhedron", "winding", "tri_edges"):
         return case["cls"] != "tetra"
     if k == "collinear":
+        return len(case["pts"]) >= 3
+    if k == "sort_line":
         return len(case["pts"]) >= 3
     return True
 
